@@ -148,6 +148,19 @@ def release(F, R, d):
                     ok = (any(l[0] == 'call' and re.search(r'NonZero.*::get$', l[1]) for l in og) or any(l[0] == 'arg' and l[2] and l[2][-1] == 'packet_id' for l in og)) and not any(l[0] == 'const' for l in og)
                     why = 'the packet id passed to control_pkt does not originate from the request (%s)' % sorted(map(str, og))[:4]
                 R.ob('C11.release', '%s|%s|%s|id-forwarded' % (d.name, arm, nm), ok, why, b.loc(bi))
+        # publish_fn (un-routed publish handed to the control service): forwarded with its packet id, not through the id-less control()
+        pf = d.publish_fn
+        for bi, t in d.call_sites(pf, r'Inner::<C>::control|Inner::<C>::control_pkt'):
+            nm = callee_name(t).split('::')[-1]
+            if nm == 'control':
+                ok = False
+                why = 'an un-routed PUBLISH is handed to the control service through control() (= control_pkt(.., no id)): when the control service acknowledges it the packet id stays in the in-flight set, and the peer\'s next use of that id is refused as in use'
+            else:
+                og = Origin(pf).of_operand(t['args'][2])
+                ups = [str(i) for i, u in enumerate(pf.d.get('upvars') or []) if u.get('name') == 'packet_id']
+                ok = any(l[0] == 'arg' and l[1] == 1 and l[2] and l[2][0] in ups for l in og) and not any(l[0] == 'const' for l in og)
+                why = 'the id passed to control_pkt is not publish_fn\'s packet_id (%s)' % sorted(map(str, og))[:3]
+            R.ob('C11.release', '%s|publish_fn|%s|id-forwarded' % (d.name, nm), ok, why, pf.loc(bi))
         # control_pkt: remove(arg id) on the Ok edge
         cp = d.control_pkt
         rms = d.inflight_calls(cp, 'remove')
